@@ -12,7 +12,7 @@ from . import _core_common as cc
 PROP = 'C03'
 ENGINE = 'coresim'
 HASH_CLASSES = 1
-RUNS = {'quick': 600, 'thorough': 15000}
+RUNS = {'quick': 1200, 'thorough': 15000}
 RUN_TIMEOUT = 240
 DETERMINISM_RUNS = 8
 RULE = ("Generator of C01 with 60% of runs at maximal eviction pressure "
@@ -27,7 +27,9 @@ RULE = ("Generator of C01 with 60% of runs at maximal eviction pressure "
 PROBES = ['eviction', 'eviction_during_nested_request',
           'importance_override', 'regular_cleanup_fired', 'cleanup_calls',
           'memory_loop_evictions', 'route_freeze_data', 'route_load_data',
-          'route_over_time', 'eviction_inside_over_time', 'load_data_again']
+          'route_over_time', 'eviction_inside_over_time', 'load_data_again',
+          'alloc_failure_injected',
+          'input_supplied_after_its_default_was_computed']
 COMPONENTS = cc.COMPONENTS
 ASSUMPTIONS = [
     'bounded termination is observed as: one clean-up makes at most (n+2)^2 '
